@@ -36,3 +36,12 @@ VARIANTS += [
     M('C11', 'refactor-fallback-encoding-recorded-after-with', E(UT, "                    lines = f.readlines()\n                    filetype.encoding = 'iso-8859-1'\n                    return lines\n", "                    lines = f.readlines()\n                filetype.encoding = 'iso-8859-1'\n                return lines\n"),
       kind='refactor'),
 ]
+
+VARIANTS += [
+    M('C11', 'patterns-kept-when-nothing-matched', E(GT, "        self.reference_files[run] = reference_files.union(extras) - globbed", "        if extras:\n            self.reference_files[run] = reference_files.union(extras) - globbed"),
+      rule='C11-GLOBS', key='add_globs'),
+    M('C11', 'patterns-not-subtracted', E(GT, "        self.reference_files[run] = reference_files.union(extras) - globbed", "        self.reference_files[run] = reference_files.union(extras)"),
+      rule='C11-GLOBS', key='add_globs'),
+    M('C11', 'refactor-early-exit-without-patterns', E(GT, "        self.reference_files[run] = reference_files.union(extras) - globbed", "        if not globbed:\n            return\n        self.reference_files[run] = reference_files.union(extras).difference(globbed)"),
+      kind='refactor'),
+]
